@@ -75,7 +75,9 @@ func (rt *runtime) cmplFunctionDeclaration(list []*nodeFunctionLiteral) {
 
 	for _, function := range list {
 		name := function.name
-		value := rt.cmplEvaluateNodeExpression(function)
+		// A function declaration closes over the variable environment and, unlike a
+		// named function expression, gets no scope of its own for its name (ES5 13).
+		value := objectValue(rt.newNodeFunction(function, stash))
 		if !stash.hasBinding(name) {
 			stash.createBinding(name, eval, value)
 		} else {
